@@ -175,4 +175,81 @@ example : KPd.bought_tokens_amount 10 0 500 = none := by decide
 example : KPd.deposit_price_check 5 2 100 10 1 100 = none := by decide
 example : KPd.deposit_price_check 5 2 100 10 2 100 = some 5 := by decide
 
+/-! ### `match` on the phase and on the redeem-token nonce (session 4: the translator reads `match`)
+
+`Phase` has variants with data, so a phase VALUE is the pair (variant index, payload) =
+`(Phase.rank, Phase.pct)` (see `phase_encoding`); a `match` on it is a Lean `match` on the index. -/
+
+/-- source `Phase::get_penalty_percentage` (a `match self` with a catch-all arm) IS the model's
+    `Phase.pct`: the carried percentage for the two penalty phases, 0 otherwise; never aborts -/
+theorem get_penalty_percentage_eq (ph : Phase) :
+    KPd.get_penalty_percentage ph.rank ph.pct = some ph.pct := by
+  cases ph <;> k_defs [KPd.get_penalty_percentage, Phase.rank, Phase.pct] <;> try k_solve
+
+/-- source `require_deposit_allowed` (a `match` with the or-pattern `Idle | OnlyWithdrawFixedPenalty
+    {..} | Redeem => sc_panic!`) passes exactly when the model's `depositAllowed` holds -/
+theorem require_deposit_allowed_eq (ph : Phase) :
+    KPd.require_deposit_allowed ph.rank = if ph.depositAllowed = true then some () else none := by
+  cases ph <;> k_defs [KPd.require_deposit_allowed, Phase.rank, Phase.depositAllowed] <;> try k_solve
+
+/-- source `require_withdraw_allowed` (`Idle | Redeem => sc_panic!`) passes exactly when the model's
+    `withdrawAllowed` holds -/
+theorem require_withdraw_allowed_eq (ph : Phase) :
+    KPd.require_withdraw_allowed ph.rank = if ph.withdrawAllowed = true then some () else none := by
+  cases ph <;> k_defs [KPd.require_withdraw_allowed, Phase.rank, Phase.withdrawAllowed] <;> try k_solve
+
+/-- source `require_redeem_allowed` (`phase == &Phase::Redeem`, a comparison of variant indices)
+    passes exactly when the model's `redeemAllowed` holds -/
+theorem require_redeem_allowed_eq (ph : Phase) :
+    KPd.require_redeem_allowed ph.rank = if ph.redeemAllowed = true then some () else none := by
+  cases ph <;> k_defs [KPd.require_redeem_allowed, Phase.rank, Phase.redeemAllowed] <;> try k_solve
+
+/-- the three phase gates on a model state: `deposit` / `withdraw` / `redeem` of the model ask for
+    exactly what the source's gate functions ask for on the encoded current phase -/
+theorem phase_gates_state (s : St) :
+    (KPd.require_deposit_allowed s.phase.rank = some () ↔ s.phase.depositAllowed = true) ∧
+    (KPd.require_withdraw_allowed s.phase.rank = some () ↔ s.phase.withdrawAllowed = true) ∧
+    (KPd.require_redeem_allowed s.phase.rank = some () ↔ s.phase.redeemAllowed = true) := by
+  rw [require_deposit_allowed_eq, require_withdraw_allowed_eq, require_redeem_allowed_eq]
+  refine ⟨?_, ?_, ?_⟩ <;> split <;> simp [*]
+
+/-- the WHOLE of source `compute_bought_tokens` (the `match redeem_token_nonce` that picks the
+    OTHER side's token and balance, then the share): for the redeem token of side `t` the payment
+    is (identifier of the other side's token, nonce 0, `⌊other balance · amount / supply of t⌋`);
+    it aborts on a zero supply.  `idL`, `idA`: the launched / accepted token identifiers -/
+theorem compute_bought_tokens_eq (t : Tok) (amt sup balL balA idL idA : Nat) :
+    KPd.compute_bought_tokens t.nonce amt balA idA balL idL sup =
+      if sup = 0 then none
+      else some (match t with | .launched => idA | .accepted => idL, 0,
+                 (match t with | .launched => balA | .accepted => balL) * amt / sup) := by
+  cases t <;> k_defs [KPd.compute_bought_tokens, Tok.nonce] <;> try k_solve
+
+/-- a redeem-token nonce that is neither side's makes `compute_bought_tokens` abort
+    (`_ => sc_panic!(INVALID_PAYMENT_ERR_MSG)`) -/
+theorem compute_bought_tokens_bad_nonce (n amt sup balL balA idL idA : Nat)
+    (h1 : n ≠ Tok.launched.nonce) (h2 : n ≠ Tok.accepted.nonce) :
+    KPd.compute_bought_tokens n amt balA idA balL idL sup = none := by
+  simp only [Tok.nonce] at h1 h2
+  k_defs [KPd.compute_bought_tokens]
+  try k_solve
+
+/-- a successful model `redeem` pays exactly the amount the whole source function computes, taken
+    from the balance of the OTHER side (the direction is now part of the translated source) -/
+theorem redeem_runs_whole_source {s s' : St} {c : Nat} {t : Tok} {amt : Nat} {o : Out}
+    (h : redeem s c t amt = some (s', o)) (idL idA : Nat) :
+    ∃ tok, KPd.compute_bought_tokens t.nonce amt s.A.bal idA s.L.bal idL (s.side t).sup =
+      some (tok, 0, o.v1) := by
+  obtain ⟨bought, _, _, _, _, hsup, hb, _, rfl, _⟩ := redeem_spec h
+  rw [compute_bought_tokens_eq, if_neg hsup]
+  cases t <;> exact ⟨_, by simp only [St.side, Tok.other] at hb ⊢; rw [hb]⟩
+
+example : KPd.get_penalty_percentage 2 35 = some 35 := by decide
+example : KPd.get_penalty_percentage 4 35 = some 0 := by decide
+example : KPd.require_deposit_allowed 3 = none := by decide
+example : KPd.require_deposit_allowed 2 = some () := by decide
+example : KPd.require_withdraw_allowed 3 = some () := by decide
+example : KPd.compute_bought_tokens 1 10 500 7 300 8 20 = some (7, 0, 250) := by decide
+example : KPd.compute_bought_tokens 2 10 500 7 300 8 20 = some (8, 0, 150) := by decide
+example : KPd.compute_bought_tokens 3 10 500 7 300 8 20 = none := by decide
+
 end Mx.KPd
